@@ -612,6 +612,10 @@ func (sc *ServerConfig) UDPRelay(logger *zap.Logger, maxClientPackerHeadroom zer
 		natServer = direct.Socks5UDPNATServer{}
 
 	case "2022-blake3-aes-128-gcm", "2022-blake3-aes-256-gcm":
+		if sc.SlidingWindowFilterSize > ss2022.MaxSlidingWindowFilterSize {
+			return nil, fmt.Errorf("slidingWindowFilterSize %d exceeds the maximum %d", sc.SlidingWindowFilterSize, uint64(ss2022.MaxSlidingWindowFilterSize))
+		}
+
 		s := ss2022.NewUDPServer(sc.SlidingWindowFilterSize, sc.userCipherConfig, sc.identityCipherConfig, sc.PaddingPolicy.Policy())
 		sc.udpCredStore = &s.CredStore
 		sessionServer = s
